@@ -42,14 +42,23 @@ def ops_alphabet():
     for pat in RAW:
         ops += ["sx:%s:3:2" % hx(pat), "sx:%s:4:7" % hx(pat), "px:%s:2" % hx(pat), "ix:%s" % hx(pat)]
     ops += ["sd:5:2", "sd:6:7", "pd:2", "pd:4", "ss:404:7:2", "ss:404:8:7", "ps:404:2", "ps:500:2",
-            "se:0:9:2", "se:1:10:7", "se:9:11:2", "pe:0:2", "pe:1:4", "pe:2:2",
+            "se:0:9:2", "se:1:10:7", "se:9:11:2", "se:1:12:2", "se:9:13:6", "pe:0:2", "pe:1:4", "pe:1:2", "pe:2:2",
             "ab:20", "ab:21", "pb:20", "pb:22", "aa:30", "aa:31", "pa:30", "pa:31",
             "sf:%s:%s:int" % (hx("uint"), hx(r"\d+")), "sf:%s:%s:u1" % (hx(":word"), hx(r"[a-z]+"))]
     return ops
 
 
+HPROBES = ["qe:GET:0", "qe:GET:1", "qe:POST:1", "qe:GET:2", "qe:HEAD:1", "qs:GET:404", "qs:POST:404", "qs:GET:500",
+           "qs:HEAD:404"]
+
+
 def probes():
-    return ["q:%s:%s:000000" % (m, hx(p)) for m, p in PROBES]
+    return ["q:%s:%s:000000" % (m, hx(p)) for m, p in PROBES] + HPROBES
+
+
+def strip_hprobes(case):
+    """the handler-dispatch probes are checked by the oracle only: the model line does not carry them"""
+    return " ".join(t for t in case.split() if not t.startswith(("qe:", "qs:")))
 
 
 def with_checks(ops):
@@ -76,7 +85,11 @@ def generate(rng, tier):
 
 
 def observe(case):
-    return RC.observe(case)
+    return RC.observe(strip_hprobes(case))
+
+
+def to_model(case):
+    return [strip_hprobes(case)]
 
 
 canon_model = RC.canon_model
@@ -89,6 +102,7 @@ class RefReg:
         self.t = {}        # (table, key, bit) -> fn
         self.before, self.after = [], []
         self.order = []    # pattern routes in first-registration order (dispatch precedence)
+        self.eorder = []   # exception types in first-registration order
 
     def apply(self, tok):
         p = tok.split(":")
@@ -117,7 +131,22 @@ class RefReg:
         if op in ("ss", "se"):
             for b in bits(int(p[3])):
                 self.t[(op, p[1], b)] = int(p[2])
+            if op == "se" and p[1] not in self.eorder:
+                self.eorder.append(p[1])
             return "ok"
+        if op == "qe":
+            # the first registered type, in registration order, that matches the exception and has a handler for the method
+            bit = {"HEAD": 1, "GET": 2, "POST": 4, "PUT": 8}[p[1]]
+            cls = int(p[2])
+            for T in self.eorder:
+                if issubclass(RC.ECLS[cls], RC.ECLS[int(T)]) and ("se", T, bit) in self.t:
+                    return "s%d" % self.t[("se", T, bit)]
+            return "none"
+        if op == "qs":
+            bit = {"HEAD": 1, "GET": 2, "POST": 4, "PUT": 8}[p[1]]
+            if ("ss", p[2], bit) in self.t:
+                return "s%d" % self.t[("ss", p[2], bit)]
+            return "builtin"
         if op in ("ps", "pe"):
             return self.pop(("s" + op[1], p[1], int(p[2])))
         if op in ("ab", "aa"):
@@ -150,6 +179,12 @@ def oracle(case):
     outs, app = RC.run_ops(case)
     ref = RefReg()
     for tok, out in zip(toks, outs):
+        if tok.startswith(("qe:", "qs:")):
+            want = ref.apply(tok)
+            if want != out:
+                return [Violation("c19-dispatch", case, "probe %s is answered by %s, the registrations minus removals "
+                                  "select %s" % (tok, out, want))]
+            continue
         if tok == "v" or tok.startswith("q:"):
             if tok == "v":
                 # compare the reference with the real views
